@@ -177,11 +177,17 @@ class ExecGen:
                 sel.append(G.field("__typename", key if key != "__typename" else None, None, self.cond_dirs(allow_vars)))
             elif c < 10 and depth < 3:
                 cands = sorted(t for t, d in self.types.items() if d["k"] in ("object", "interface", "union") and self.possible(t) & self.possible(parent))
-                if r.chance(1, 4) or not cands:
-                    sel.append(G.inline(self.selection(parent, depth, reg, frags, allow_vars, 1 + r.below(2)), None, self.cond_dirs(allow_vars)))
-                else:
-                    t = r.choice(cands)
-                    sel.append(G.inline(self.selection(t, depth, reg, frags, allow_vars, 1 + r.below(2)), t, self.cond_dirs(allow_vars)))
+                t = None if (r.chance(1, 4) or not cands) else r.choice(cands)
+                inner = self.selection(t or parent, depth, reg, frags, allow_vars, 1 + r.below(2))
+                # often nest a named fragment (or another inline fragment) directly inside the conditional fragment
+                if r.chance(1, 2):
+                    ok = [f for f in frags if self.possible(self.frag_defs[f]["on"]) & self.possible(t or parent) and reg.compatible(self.frag_regs[f])]
+                    if ok:
+                        fname = r.choice(ok)
+                        reg.merge(self.frag_regs[fname])
+                        self.used_vars |= self.frag_vars[fname]
+                        inner.append(G.spread(fname, self.cond_dirs(allow_vars) if r.chance(1, 3) else []))
+                sel.append(G.inline(inner, t, self.cond_dirs(allow_vars)))
             else:
                 ok = [f for f in frags if self.possible(self.frag_defs[f]["on"]) & self.possible(parent) and reg.compatible(self.frag_regs[f])]
                 if ok:
